@@ -225,6 +225,15 @@ def extract_dataframe(
     """
     lon_coord, lat_coord = coordinate_columns
 
+    if point_dimension in dataframe.columns:
+        # The column would replace the numbering of the points.
+        # Nothing would match when the columns are merged in
+        # and the result would silently be empty.
+        raise ValueError(
+            f"The dataframe has a column named {point_dimension!r}, "
+            "the same as the point dimension. "
+            "Use the `point_dimension` argument to name the dimension something else.")
+
     # Extract the points from the dataset
     points = shapely.points(numpy.c_[dataframe[lon_coord], dataframe[lat_coord]])
 
